@@ -195,7 +195,7 @@ def _hexcase(v, rng):
 
 
 NOTATIONS = ['dec', 'dollar', '0x', 'H', 'pct', 'b', 'char']
-CHAR_POOL = [c for c in map(chr, range(33, 127)) if c not in ";,'\"\\: "]
+CHAR_POOL = [c for c in map(chr, range(33, 127)) if c not in ",'\"\\: "]
 
 
 # ---------------------------------------------------------------------------------------------------------------------
